@@ -186,72 +186,150 @@ def polygon_boundary(P, rep, rule="POLY.boundary"):
                           witness="query exactly on a vertex of the polygon")
 
 
+class _Split(Exception):
+    def __init__(self, points):
+        Exception.__init__(self, "split")
+        self.points = points
+
+
+def _roots_inside(expr, var, lo, hi):
+    """zeros of a piecewise-linear term strictly inside (lo, hi); None if they cannot be determined"""
+    try:
+        sol = sp.solveset(expr, var, sp.Interval.open(lo, hi))
+    except Exception:
+        return None
+    if sol is sp.S.EmptySet or sol == sp.S.EmptySet:
+        return []
+    if isinstance(sol, sp.FiniteSet):
+        return sorted(sol, key=lambda r: float(r))
+    if isinstance(sol, sp.Interval):
+        return "interval"
+    return None
+
+
 def angle_interpolation(P, rep, rule="EXPR.angle"):
-    rep.rule(rule, "interpolate_angle_across_zero(a1, a2, f) interpolates along the shorter arc: if |a2-a1| > pi the smaller angle is raised by "
-                   "2*pi (a1 when a2 > a1, else a2), the result is (1-f)*a1' + f*a2' reduced to [0, 2*pi)")
+    rep.rule(rule, "interpolate_angle_across_zero(a1, a2, f) interpolates along the shorter arc: for angles in [0, 2*pi), i.e. "
+                   "d = a2 - a1 in (-2*pi, 2*pi), the result is a1 + f*d' reduced to [0, 2*pi) by floor, where d' = d, d - 2*pi or "
+                   "d + 2*pi is the representative with |d'| < pi.  Decided region by region: every condition the function "
+                   "evaluates is a piecewise-linear inequality in d; a region is split at its zeros until each condition has one "
+                   "truth value per region (isolated boundary values d = +-pi, 0 are not judged)")
     F = P.func("WorldBuilder::Utilities::interpolate_angle_across_zero")
-    miss = astq.missing_anchors(P, F, ["theta_1", "theta_2"])
-    if miss:
-        rep.unknown(rule, "interpolate_angle_across_zero: the parameters %s this rule is written over no longer exist (renamed?)" % miss)
+    if len(F.params) != 3:
+        rep.unknown(rule, "interpolate_angle_across_zero no longer takes (angle, angle, fraction)")
         return
-    a1, a2, f = sp.symbols("a1 a2 f", real=True)
-    env = {F.params[0]: a1, F.params[1]: a2, F.params[2]: f}
-    results = {}
-    for case, (far, a2_gt) in {"near": (False, None), "far, a2 > a1": (True, True), "far, a2 < a1": (True, False)}.items():
-        def choose(c, far=far, a2_gt=a2_gt):
-            t = norm.render(P, c, nocast=True).replace(" ", "").replace("std::", "")
-            if re.match(r"^\(?(abs|fabs)\(\(theta_2-theta_1\)\)>(WorldBuilder::)?(Consts::)?PI\)?$", t) or re.match(r"^\((abs|fabs)\(\(theta_1-theta_2\)\)>PI\)$", t):
-                return far
-            if t in ("(theta_2>theta_1)", "(theta_1<theta_2)"):
-                return a2_gt if a2_gt is not None else None
-            if t in ("(theta_2<theta_1)", "(theta_1>theta_2)"):
-                return (not a2_gt) if a2_gt is not None else None
-            # one-sided tests (a broken variant): decide them from the case
-            if t in ("((theta_2-theta_1)>PI)",):
-                return bool(far and a2_gt)
-            if t in ("((theta_1-theta_2)>PI)",):
-                return bool(far and a2_gt is False)
+    a1, d, f = sp.symbols("a1 d f", real=True)
+    env = {F.params[0]: a1, F.params[1]: a1 + d, F.params[2]: f}
+    pih = pi_hook(P)
+    pending = [(-TWO_PI, -sp.pi), (-sp.pi, sp.pi), (sp.pi, TWO_PI)]
+    done = []
+    rounds = 0
+    while pending:
+        rounds += 1
+        if rounds > 40:
+            rep.unknown(rule, "interpolate_angle_across_zero: more than 40 regions -- conditions are not piecewise linear in a2 - a1")
+            return
+        lo, hi = pending.pop(0)
+        mid = (lo + hi) / 2
+        holder = {}
+
+        def in_d(t):
+            t = sp.expand(t)
+            return t if not (t.free_symbols - {d}) else None
+
+        def hook(n, lo=lo, hi=hi, mid=mid, holder=holder):
+            h = pih(n)
+            if h is not None:
+                return h
+            if n.get("k") == "CallExpr" and n.get("callee") and P.d(n["callee"]).get("qn") in ("std::fmod", "fmod") and len(n["c"]) == 3:
+                B = holder["B"]
+                x, m = B.sym(n["c"][1]), B.sym(n["c"][2])
+                xd = in_d(x)
+                if xd is None or m.free_symbols or not m.is_positive:
+                    return None
+                # trunc(x/m) is constant on the region unless x crosses a multiple of m inside it
+                cuts = []
+                for j in range(-3, 4):
+                    r = _roots_inside(xd - j * m, d, lo, hi)
+                    if r is None or r == "interval":
+                        return None
+                    cuts += r
+                if cuts:
+                    raise _Split(cuts)
+                q = xd.subs(d, mid) / m
+                j = sp.floor(q) if q >= 0 else sp.ceiling(q)
+                return x - j * m
             return None
-        B = Block(P, F, choose=choose, hook=pi_hook(P))
+
+        def choose(c, lo=lo, hi=hi, mid=mid, holder=holder):
+            if c.get("k") != "BinaryOperator" or c.get("op") not in ("<", "<=", ">", ">=", "==", "!="):
+                return None
+            B = holder["B"]
+            l, r = B.sym(c["c"][0]), B.sym(c["c"][1])
+            e = in_d(l - r)
+            if e is None:
+                return None
+            roots = _roots_inside(e, d, lo, hi)
+            if roots is None:
+                return None
+            if roots == "interval":
+                v = 0
+            else:
+                if roots:
+                    raise _Split(roots)
+                v = e.subs(d, mid)
+            try:
+                v = float(v)
+            except Exception:
+                return None
+            return {"<": v < 0, "<=": v <= 0, ">": v > 0, ">=": v >= 0, "==": v == 0, "!=": v != 0}[c["op"]]
+
+        B = Block(P, F, choose=choose, hook=hook)
+        holder["B"] = B
         B.decide_ternaries = True
         B.sym.env.update(env)
         try:
             B.run(astq.stmts_of(F.body))
+            rets = [x for x in F.walk() if x.get("k") == "ReturnStmt" and x.get("c")]
+            val = B.sym(rets[-1]["c"][0]) if rets else None
+        except _Split as sp_:
+            cuts = sorted(set(sp_.points), key=lambda r: float(r))
+            edges = [lo] + cuts + [hi]
+            pending = [(edges[i], edges[i + 1]) for i in range(len(edges) - 1)] + pending
+            continue
         except AnalysisBroken as e:
-            rep.unknown(rule, str(e))
+            rep.unknown(rule, "interpolate_angle_across_zero on %s < a2-a1 < %s: %s" % (lo, hi, e))
             return
-        rets = [x for x in F.walk() if x.get("k") == "ReturnStmt" and x.get("c")]
-        val = B.sym(rets[-1]["c"][0]) if rets else None
-        results[case] = val
-    fl = sp.Function("floor")
+        done.append((lo, hi, mid, val))
     ok = True
-    for case, shift1, shift2 in (("near", 0, 0), ("far, a2 > a1", TWO_PI, 0), ("far, a2 < a1", 0, TWO_PI)):
-        lin = (1 - f) * (a1 + shift1) + f * (a2 + shift2)
-        got = results.get(case)
+    for (lo, hi, mid, got) in done:
+        region = "%s < a2-a1 < %s" % (lo, hi)
         if got is None:
-            ok = False
-            continue
-        if any(getattr(e.func, "__name__", "") == "ite" for e in got.atoms(sp.Function)):
-            rep.unknown(rule, "interpolate_angle_across_zero, case %s: a condition of the function is not one this rule can decide (%s)" % (case, str(got)[:80]))
-            ok = False
-            continue
-        # got = lin - 2pi*floor(lin/(2pi)) : compare after replacing floor(...) by a symbol
+            rep.unknown(rule, "interpolate_angle_across_zero: no returned value on %s" % region)
+            return
+        fn = {getattr(e.func, "__name__", "") for e in got.atoms(sp.Function)}
+        if fn - {"floor"}:
+            rep.unknown(rule, "interpolate_angle_across_zero on %s: the result uses %s, which this rule cannot evaluate (%s)" % (region, sorted(fn - {"floor"}), str(got)[:80]))
+            return
+        dd = d + (TWO_PI if float(mid) < -float(sp.pi) else (-TWO_PI if float(mid) > float(sp.pi) else 0))
+        want = a1 + f * dd
         K = sp.Symbol("K")
-        g2 = got.replace(lambda e: e.func.__name__ == "floor", lambda e: K)
-        if not (eq(g2, lin - TWO_PI * K)):
+        floors = [e for e in got.atoms(sp.Function) if e.func.__name__ == "floor"]
+        g2 = got.replace(lambda e: getattr(e.func, "__name__", "") == "floor", lambda e: K)
+        unreduced = sp.expand(g2.subs(K, 0))
+        diff = sp.simplify(sp.expand(unreduced - want) / TWO_PI)
+        if not (diff.is_number and diff.is_integer):
             ok = False
-            rep.violation(rule, "case %s: result is %s" % (case, got), F.loc, F.qn, str(got)[:140], "expected (1-f)*(a1%s) + f*(a2%s) reduced mod 2*pi" % (
-                "+2pi" if shift1 else "", "+2pi" if shift2 else ""), key="%s|%s" % (rule, case),
-                witness="plume whose rotation angles pass through north between two cross sections (e.g. 20 -> 340 degrees)")
-        else:
-            wraps = got.atoms(sp.Function)
-            arg_ok = any(e.func.__name__ == "floor" and eq(e.args[0], lin / TWO_PI) for e in wraps)
-            if not arg_ok:
-                ok = False
-                rep.violation(rule, "case %s: reduction is not floor(x/(2*pi))" % case, F.loc, F.qn, str(got)[:140], "angle not brought back to [0, 2*pi)",
-                              key="%s|wrap|%s" % (rule, case))
+            rep.violation(rule, "for %s the result is %s" % (region, got), F.loc, F.qn, str(got)[:140],
+                          "expected a1 + f*(%s) up to a multiple of 2*pi: the interpolation runs along the longer arc" % dd, key="%s|%s" % (rule, "far" if dd != d else "near"),
+                          witness="plume whose rotation angles pass through north between two cross sections (e.g. 20 -> 340 degrees)")
+            continue
+        arg_ok = len(floors) == 1 and eq(g2, unreduced - TWO_PI * K) and eq(floors[0].args[0], unreduced / TWO_PI)
+        if not arg_ok:
+            ok = False
+            rep.violation(rule, "for %s the reduction is not x - 2*pi*floor(x/(2*pi))" % region, F.loc, F.qn, str(got)[:140], "angle not brought back to [0, 2*pi)",
+                          key="%s|wrap" % rule)
     if ok:
-        rep.ok(rule, "interpolate_angle_across_zero: three cases (|d|<=pi, d>pi, d<-pi) agree with the shorter-arc interpolation", F.loc, F.qn)
+        rep.ok(rule, "interpolate_angle_across_zero: %d regions of a2-a1 in (-2*pi, 2*pi) agree with the shorter-arc interpolation" % len(done), F.loc, F.qn)
 
 
 def ellipse_fraction(P, rep, rule="EXPR.ellipse"):
